@@ -28,9 +28,15 @@ class World:
         # dupuid: distinct vertices carrying EQUAL uids (uids are given by the caller, the library never relies on
         # their uniqueness for structure)
         WC = classes.WORLD_VERTEX_CLASSES
-        nwc = 4 if dupuid else len(WC)      # value-hashing vertices only with unique uids
+        nwc = 4 if dupuid else 6            # value-hashing vertices only with unique uids
+        if vclasses and any(x == 99 for x in vclasses):
+            # opt-in (C10 with protocol >= 2): a class with a __slots__ attribute
+            nwc, vclasses = 7, [6 if x == 99 else x for x in vclasses]
         self.vs = [classes.make_vertex(i, None if not vclasses else WC[vclasses[i % len(vclasses)] % nwc],
                                        uid=(7 + i % 2) if dupuid else None) for i in range(nplain)]
+        for v in self.vs:
+            if isinstance(v, classes.SlotVertex):
+                v.tag = "slot-%d" % v.i
         self.vs += [Universe() for _ in range(nuni)]
         self.uidx = list(range(nplain, nplain + nuni))
         self.ls = []
@@ -109,6 +115,15 @@ class World:
         if name == "adj":
             # adjacency builders used as mutators of EXISTING vertices: k bit0 -> matrix form
             return ("adj", i % nv, j % nv, (k >> 1) % 6, k & 1)
+        if name == "newv_u2":
+            if not self.uidx or nv >= 6:
+                return None
+            nu = len(self.uidx)
+            return ("newv_u2", list(dict.fromkeys(self.uidx[x % nu] for x in (i, j, k)))[: 1 + k % 3])
+        if name == "lawsnone":
+            if not self.uidx:
+                return None
+            return ("lawsnone", self.uidx[i % len(self.uidx)], k % 2)
         if name == "newu2":
             if nv >= 6:
                 return None
@@ -216,6 +231,17 @@ class World:
             nvx = Vertex(universes=arg, attributes={"i": len(self.vs)})
             self.vs.append(nvx)
             return nvx
+        if name == "newv_u2":
+            shared = [self.vs[x] for x in r[1]]          # ONE duplicate-free list object given to two constructors
+            for _ in range(2):
+                self.vs.append(Vertex(universes=shared, attributes={"i": len(self.vs)}))
+            return None
+        if name == "lawsnone":
+            from edgegraph.structure.universe import UniverseLaws
+
+            # the laws of a universe are taken away (or given back): membership calls must not care
+            self.vs[r[1]].laws = None if r[2] == 0 else UniverseLaws()
+            return None
         if name == "newu2":
             shared = [self.vs[x] for x in r[1]]          # ONE duplicate-free list object given to two constructors
             for _ in range(2):
